@@ -38,7 +38,7 @@ def build(chk):
         "SSP stages (rk2_heun, rk3ssp), HLLC, wall boundaries",
     ]
     # ---- (code) HLL form and Einfeldt bounds --------------------------------------------------------------------------------
-    for kind, name in (("euler1d", "hlle"), ("shallowwater", "hll"), ("shallowwater", "rusanov")):
+    for kind, name in (("euler1d", "hlle"), ("shallowwater", "hll"), ("shallowwater", "rusanov"), ("euler1d", "hllc")):
         rp = {"fn": "flux_clause", "args": {"kind": kind, "flux": name, "normal": None, "clause": "consistency"}}
 
         def form(kind=kind, name=name, rp=rp):
@@ -69,6 +69,17 @@ def build(chk):
                     cL = T.treal(T.sqrt(info["gamma"] * WLi[2] / WLi[0]))
                     cR = T.treal(T.sqrt(info["gamma"] * WRi[2] / WRi[0]))
             uL, uR = WLi[1], WRi[1]
+            if name == "hllc":
+                # HLLC: only the wave-speed contract its positivity rests on (Batten et al.): the estimates bound the
+                # acoustic speeds of both states; the star-state argument itself stays in the bounded stand-in
+                # stated on the code's own values of sL, sR (not on the ghost cuts): a wrong estimate is refuted directly
+                sLr = T.treal(H.store[(1, "sL")]["real"].at(i))
+                sRr = T.treal(H.store[(1, "sR")]["real"].at(i))
+                prove("einfeldt-bound/left", sLr <= uL - cL, replay=rp)
+                prove("einfeldt-bound/right", sRr >= uR + cR, replay=rp)
+                prove("speeds-ordered", sR - sL > 0, replay=rp)
+                C02.finish_hints(chk, H)
+                return
             prove("einfeldt-bound/left", z3.And(sL <= 0, sL <= uL - cL), replay=rp)
             prove("einfeldt-bound/right", z3.And(sR >= 0, sR >= uR + cR), replay=rp)
             if name == "rusanov":
@@ -211,6 +222,15 @@ print("RUNS", runs, "BAD", bad)
                             "bound": "%d seeded random / piecewise-constant fields per config, 3-12 cells, ratios up to 1e3, |M|,|Fr| <= 3" % nrand,
                             "runs": runs, "failures": bad, "counted_as_proved": False, "stderr": p.stderr[-200:]})
         if bad != 0:
-            chk.native("bounded/first-order-positivity (BOUNDED stand-in, concrete failure)", False, "\n".join(out[:4]), backend="bounded")
+            rp = None
+            for l in out:
+                if l.startswith("POSITIVITY FAIL"):
+                    import ast as _ast
+                    w = l.split(None, 7)
+                    rp = {"fn": "positivity_clause", "args": {"kind": w[2], "flux": w[3], "bc": w[4], "integ": w[5], "cfl": float(w[6]),
+                                                              "prim": _ast.literal_eval(w[7])}}
+                    break
+            chk.native("bounded/first-order-positivity (BOUNDED stand-in, concrete failure)", False, "\n".join(out[:4]), replay=rp,
+                       backend="bounded")
     except Exception as e:
         chk.notes.append("bounded positivity stand-in could not be run: %r" % (e,))
